@@ -576,6 +576,13 @@ def list_method(ex, base, attr, args, kwargs, st, n):
     if attr == 'extend':
         ex.set_list_content(st, base, Concat(seq, ex.as_seq(st, args[0], ept)), n)
         return NONE
+    if attr == 'pop' and not args and not kwargs:
+        # xs.pop(): the last element, removed; IndexError on an empty list (JavaScript would give undefined: the obligation is the stronger one)
+        if not ex.branch(st, Ge(Len(seq), IntC(1)), raising='IndexError', node=n):
+            raise PyExc(ExcV('IndexError'))
+        last = Nth(seq, Sub(Len(seq), IntC(1)))
+        ex.set_list_content(st, base, Extract(seq, IntC(0), Sub(Len(seq), IntC(1))), n)
+        return ex.wf(st, SV(ept, last))
     if attr == 'reverse':
         # pointwise model (A-PY): same length, element k is old element len-1-k
         r = fresh('reversed', seq.sort)
